@@ -13,7 +13,11 @@ import time
 class Universe:
     """base/W = watched root, base/O = outside; paths in histories are relative to base ('W/a/b')"""
 
-    def __init__(self, as_bytes=False):
+    def __init__(self, as_bytes=False, pin_inodes=False):
+        # pin_inodes: keep an O_PATH descriptor on everything that is removed, so that the scratch file system never hands a
+        # removed entry's inode number to a new entry (APFS / HFS+ never re-use one; tmpfs and ext4 do at once)
+        self.pin_inodes = pin_inodes
+        self._pins = []
         d = os.environ.get("TMPDIR") or None
         self.base = os.path.realpath(tempfile.mkdtemp(prefix="wdverif-fs-", dir=d))
         os.mkdir(os.path.join(self.base, "W"))
@@ -68,7 +72,28 @@ class Universe:
         return out
 
     def cleanup(self):
+        for fd in self._pins:
+            try:
+                os.close(fd)
+            except OSError:
+                pass
+        self._pins = []
         shutil.rmtree(self.base, ignore_errors=True)
+
+    def _pin(self, path, deep=False):
+        if not self.pin_inodes or not os.path.lexists(path):
+            return
+        try:
+            self._pins.append(os.open(path, os.O_PATH | os.O_NOFOLLOW))
+        except OSError:
+            pass
+        if deep and os.path.isdir(path) and not os.path.islink(path):
+            for root, dirs, files in os.walk(path):
+                for n in dirs + files:
+                    try:
+                        self._pins.append(os.open(os.path.join(root, n), os.O_PATH | os.O_NOFOLLOW))
+                    except OSError:
+                        pass
 
     # ---- operations; each returns True if it was applicable (guards = the syscalls' own)
     def apply(self, op):
@@ -88,14 +113,17 @@ class Universe:
                 cur = os.stat(self.p(op[1])).st_mode & 0o777
                 os.chmod(self.p(op[1]), 0o700 if cur != 0o700 else 0o755)
             elif k == "unlink":
+                self._pin(self.p(op[1]))
                 os.unlink(self.p(op[1]))
             elif k == "mkdir":
                 os.mkdir(self.p(op[1]))
             elif k == "rmdir":
+                self._pin(self.p(op[1]))
                 os.rmdir(self.p(op[1]))
             elif k == "rmtree":
                 if not os.path.isdir(self.p(op[1])) or os.path.islink(self.p(op[1])):
                     return False
+                self._pin(self.p(op[1]), deep=True)
                 shutil.rmtree(self.p(op[1]))
             elif k == "rename":
                 src, dst = self.p(op[1]), self.p(op[2])
@@ -107,6 +135,7 @@ class Universe:
                     return False
                 if not os.path.isdir(os.path.dirname(dst)):
                     return False
+                self._pin(dst)          # an entry the rename replaces
                 os.rename(src, dst)
             else:
                 raise ValueError(op)
